@@ -1,6 +1,6 @@
-CONSTANT Configs <- QuickConfigs
+CONSTANT Configs = {}
 CONSTANT MaxW = 2
-SPECIFICATION Spec
+SPECIFICATION QuickSpec
 INVARIANTS Paired NoDup AllDelivered InOrder1 RecordsPaired RecordsInOrder SetsAreWhatReaderProduced
 INVARIANTS ErrOnce ErrNoLater ErrDrain InitFailuresSurface ClosedOnlyAfterInitFailure PerRecordErrorsReturned
 INVARIANTS BoundedSets ReaderAhead RecycledOnly
